@@ -36,3 +36,5 @@ pub use base64_chip::*;
 pub use data_types::{DateFormat, Separator};
 pub use parser_gadget::*;
 pub use specs::{spec_library, StdLibParser};
+#[cfg(feature = "verif-hooks")]
+pub use specs::verif_spec_regexes;
